@@ -14,8 +14,10 @@ use; each theorem is the round trip `generate → abstract writer → parseRoot`
                        proper subclass, written with `xsi:type` and found again by `find_subclass`
 * `bind_generate_FN` : any subset of these features
 
-The value-level exclusions of `FN.valOK` that are genuine defects of the code have machine-checked
-witnesses below, replayed on the real code (`known_findings.json`).
+No hypothesis restricts the namespaces of classes and fields (repair `c01g-01`).  The value-level
+exclusions of `FN.valOK` that are genuine defects of the code have machine-checked witnesses below,
+replayed on the real code (`known_findings.json`); the former witnesses of the defects repaired by
+`repo-patches/c01g-02 … c01g-08` are now `…_repaired` theorems (instances of the round trip).
 -/
 import XsdataModel.Props.C01
 import XsdataModel.Proofs.C01NInduct
@@ -138,43 +140,42 @@ def w5Root : ClassInfo := classOf "Root" (mkMeta "Root" "Root" none
 def Γw5 : Ctx := twoClasses w5Leaf w5Root
 def w5 : Val := .obj (s "Root") [(s "c", .obj (s "Leaf") [(s "z", .none)])]
 
-/-- an object without content under a nillable var is written as `xsi:nil="true"` and comes back
-as `None` -/
-theorem nillable_empty_object_witness :
-    ctxOK featF2 Γw5 = true ∧ valOK e0 Γw5 (s "Root") w5 = false ∧
-    generate e0 Γw5 {} w5 = .ok (evsOf Γw5 w5) ∧
-    eventsTree (isDatatype Γw5) (evsOf Γw5 w5) = .ok (treeOf Γw5 w5) ∧
-    treeOf Γw5 w5 = .node (s "Root") [] [] none [.node (s "c") [(xsiNil, s "true")] [] none [] none] none ∧
-    parseRoot e0 Γw5 {} (s "Root") (treeOf Γw5 w5) = .ok (.obj (s "Root") [(s "c", .none)], 0) :=
-  ⟨by decide, by decide, rfl, rfl, rfl, rfl⟩
+/-- repaired (`c01g-03`): the field being nillable is no reason for `xsi:nil`; the empty object is
+written as `<c/>` and comes back (before: `<c xsi:nil="true"/>` → `Root(c=None)`) -/
+theorem nillable_empty_object_repaired :
+    ctxOK featF2 Γw5 = true ∧ valOK e0 Γw5 (s "Root") w5 = true ∧
+    treeOf Γw5 w5 = .node (s "Root") [] [] none [.node (s "c") [] [] none [] none] none ∧
+    ∃ evs t, generate e0 Γw5 {} w5 = .ok evs ∧ eventsTree (isDatatype Γw5) evs = .ok t ∧
+      parseRoot e0 Γw5 {} (s "Root") t = .ok (w5, 0) :=
+  ⟨by decide, by decide, rfl, bind_generate_F2 e0 Γw5 {} {} (s "Root") w5 (by decide) (by decide)⟩
 
 /-- witness 6: `a: Optional[str]` nillable holding `""` -/
 def Γw6 : Ctx := rootOnly [mkVarN 1 "a" "a" .element [.prim .str] (nillable := true)] [] none
   [⟨s "a", true, some .none⟩]
 def w6 : Val := .obj (s "Root") [(s "a", .prim (.str []))]
 
-/-- an empty `str` under a nillable var is written as `<a/>` (not `xsi:nil`) and comes back as `None` -/
-theorem nillable_empty_str_witness :
-    ctxOK featF2 Γw6 = true ∧ valOK e0 Γw6 (s "Root") w6 = false ∧
-    generate e0 Γw6 {} w6 = .ok (evsOf Γw6 w6) ∧
-    eventsTree (isDatatype Γw6) (evsOf Γw6 w6) = .ok (treeOf Γw6 w6) ∧
+/-- repaired (`c01g-06`): the empty element of a nillable `str` var without `xsi:nil` is `""`
+(before: `None`) -/
+theorem nillable_empty_str_repaired :
+    ctxOK featF2 Γw6 = true ∧ valOK e0 Γw6 (s "Root") w6 = true ∧
     treeOf Γw6 w6 = .node (s "Root") [] [] none [.node (s "a") [] [] none [] none] none ∧
-    parseRoot e0 Γw6 {} (s "Root") (treeOf Γw6 w6) = .ok (.obj (s "Root") [(s "a", .none)], 0) :=
-  ⟨by decide, by decide, rfl, rfl, rfl, rfl⟩
+    ∃ evs t, generate e0 Γw6 {} w6 = .ok evs ∧ eventsTree (isDatatype Γw6) evs = .ok t ∧
+      parseRoot e0 Γw6 {} (s "Root") t = .ok (w6, 0) :=
+  ⟨by decide, by decide, rfl, bind_generate_F2 e0 Γw6 {} {} (s "Root") w6 (by decide) (by decide)⟩
 
 /-- witness 7: a nillable list of token lists, empty -/
 def Γw7 : Ctx := rootOnly [mkVarN 1 "a" "a" .element [.prim .int] (listElement := true)
   (default := .listFactory) (nillable := true) (tokens := true)] [] none [⟨s "a", true, some (.list [])⟩]
 def w7 : Val := .obj (s "Root") [(s "a", .list [])]
 
-/-- the empty list is written as one `xsi:nil` element and comes back as `[[]]` -/
-theorem nillable_token_lists_witness :
-    ctxOK featF4 Γw7 = false ∧
-    generate e0 Γw7 {} w7 = .ok (evsOf Γw7 w7) ∧
-    eventsTree (isDatatype Γw7) (evsOf Γw7 w7) = .ok (treeOf Γw7 w7) ∧
-    treeOf Γw7 w7 = .node (s "Root") [] [] none [.node (s "a") [(xsiNil, s "true")] [] none [] none] none ∧
-    parseRoot e0 Γw7 {} (s "Root") (treeOf Γw7 w7) = .ok (.obj (s "Root") [(s "a", .list [.list []])], 0) :=
-  ⟨by decide, rfl, rfl, rfl, rfl⟩
+/-- repaired (`c01g-05`): nothing is written for the empty list (before: one `xsi:nil` element that
+came back as `[[]]`) -/
+theorem nillable_token_lists_repaired :
+    ctxOK featF4 Γw7 = true ∧ valOK e0 Γw7 (s "Root") w7 = true ∧
+    treeOf Γw7 w7 = .node (s "Root") [] [] none [] none ∧
+    ∃ evs t, generate e0 Γw7 {} w7 = .ok evs ∧ eventsTree (isDatatype Γw7) evs = .ok t ∧
+      parseRoot e0 Γw7 {} (s "Root") t = .ok (w7, 0) :=
+  ⟨by decide, by decide, rfl, bind_generate_F4 e0 Γw7 {} {} (s "Root") w7 (by decide) (by decide)⟩
 
 /-- witness 8: a nillable class whose text var is an empty token list -/
 def w8Leaf : ClassInfo := classOf "Leaf"
@@ -186,14 +187,13 @@ def w8Root : ClassInfo := classOf "Root" (mkMeta "Root" "Root" none
 def Γw8 : Ctx := twoClasses w8Leaf w8Root
 def w8 : Val := .obj (s "Root") [(s "c", .list [.obj (s "Leaf") [(s "v", .list [])]])]
 
-/-- the element is `xsi:nil` and the token list comes back as `None` -/
-theorem nillable_class_empty_tokens_witness :
-    ctxOK featF3 Γw8 = true ∧ valOK e0 Γw8 (s "Root") w8 = false ∧
-    generate e0 Γw8 {} w8 = .ok (evsOf Γw8 w8) ∧
-    eventsTree (isDatatype Γw8) (evsOf Γw8 w8) = .ok (treeOf Γw8 w8) ∧
-    parseRoot e0 Γw8 {} (s "Root") (treeOf Γw8 w8) =
-      .ok (.obj (s "Root") [(s "c", .list [.obj (s "Leaf") [(s "v", .none)]])], 0) :=
-  ⟨by decide, by decide, rfl, rfl, rfl⟩
+/-- repaired (`c01g-08`): the element is `xsi:nil` and the parser leaves the token list to the
+field default `[]` (before: `None` in a list-typed field) -/
+theorem nillable_class_empty_tokens_repaired :
+    ctxOK featF3 Γw8 = true ∧ valOK e0 Γw8 (s "Root") w8 = true ∧
+    ∃ evs t, generate e0 Γw8 {} w8 = .ok evs ∧ eventsTree (isDatatype Γw8) evs = .ok t ∧
+      parseRoot e0 Γw8 {} (s "Root") t = .ok (w8, 0) :=
+  ⟨by decide, by decide, bind_generate_F3 e0 Γw8 {} {} (s "Root") w8 (by decide) (by decide)⟩
 
 
 /-! #### `sequence` groups -/
@@ -234,10 +234,18 @@ def w9Root : ClassInfo := classOf "Root" (mkMeta "Root" "Root" none
 def Γw9 : Ctx := { classes := [w9Root], xsiIndex := [], datatypes := [] }
 def w9 : Val := .obj (s "Root") [(s "t", .list [.prim (.int 1), .prim (.int 2)]), (s "a", .list [.prim (.int 3)])]
 
-/-- the roll hands the tokens over one by one and `convert_tokens` evaluates `value[0]` on an `int` -/
-theorem tokens_in_sequence_witness :
-    ctxOK featF5 Γw9 = false ∧ generate e0 Γw9 {} w9 = .error (.leaked "TypeError") :=
-  ⟨by decide, rfl⟩
+def t9 : Tree := .node (s "Root") [] [] none
+  [.node (s "t") [] [] (some (s "1 2")) [] none, .node (s "a") [] [] (some (s "3")) [] none] none
+
+/-- repaired (`c01g-04`): the roll hands a token list over whole (before: token by token, and
+`convert_tokens` raised `TypeError`).  The universe is still outside `ctxOK` (`seqOK`); the round
+trip of this instance holds by evaluation. -/
+theorem tokens_in_sequence_repaired :
+    ctxOK featF5 Γw9 = false ∧ generate e0 Γw9 {} w9 = .ok (evsOf Γw9 w9) ∧
+    eventsTree (isDatatype Γw9) (evsOf Γw9 w9) = .ok t9 ∧
+    parseRoot e0 Γw9 {} (s "Root") t9 = .ok (w9, 0) :=
+  ⟨by decide, rfl, rfl, rfl⟩
+
 
 /-! #### `Attributes` maps and `init=False` fields -/
 
@@ -246,8 +254,7 @@ def featF6 : Feat :=
 
 /-- **C01, fragment F6** = F5 + one `Attributes` map per class (any `namespace`) + `init=False` fields
 with a primitive default.  The map's keys must match the namespaces of the var, be distinct from the declared
-attributes and not in the `xsi` namespace; its values must not look like `prefix:rest`; a nillable
-class with a map (or a non-nillable class with a map under a nillable var) needs content. -/
+attributes and not in the `xsi` namespace; its values must not look like `prefix:rest`. -/
 theorem bind_generate_F6 (e : BEnv) (Γ : Ctx) (cfg : SerCfg) (pcfg : ParserConfig) (c : ClassId) (v : Val)
     (hΓ : ctxOK featF6 Γ = true) (hv : valOK e Γ c v = true) :
     ∃ evs t, generate e Γ cfg v = .ok evs ∧ eventsTree (isDatatype Γ) evs = .ok t ∧
@@ -313,19 +320,14 @@ def w11 : Val := .obj (s "Root")
   [(s "m", .attrs []), (s "k", .none), (s "fx", .prim (.str (s "v1"))), (s "fe", .prim (.int 7)),
    (s "c", .list [aLeafV [] .none])]
 
-def t11 : Tree := .node (s "Root") [(s "fx", s "v1")] [] none
-  [.node (s "fe") [] [] (some (s "7")) [] none, .node (s "c") [(xsiNil, s "true")] [] none [] none] none
-
-/-- the element is written as `xsi:nil="true"` and the parser puts that attribute into the map -/
-theorem nillable_class_attributes_witness :
-    ctxOK featF6 Γ6 = true ∧ valOK e0 Γ6 (s "Root") w11 = false ∧
-    generate e0 Γ6 {} w11 = .ok (evsOf Γ6 w11) ∧
-    eventsTree (isDatatype Γ6) (evsOf Γ6 w11) = .ok t11 ∧
-    parseRoot e0 Γ6 {} (s "Root") t11 = .ok (.obj (s "Root")
-      [(s "m", .attrs []), (s "k", .none), (s "fx", .prim (.str (s "v1"))), (s "fe", .prim (.int 7)),
-       (s "c", .list [.obj (s "Leaf") [(s "m", .attrs [(xsiNil, s "true")]), (s "z", .none)]])], 0) :=
-  ⟨by decide, by decide, rfl, rfl, rfl⟩
-
+/-- repaired (`c01g-07`): `bind_attrs` keeps `xsi:nil` out of the map (before: `Leaf(m={xsi:nil: "true"})`) -/
+theorem nillable_class_attributes_repaired :
+    ctxOK featF6 Γ6 = true ∧ valOK e0 Γ6 (s "Root") w11 = true ∧
+    treeOf Γ6 w11 = .node (s "Root") [(s "fx", s "v1")] [] none
+      [.node (s "fe") [] [] (some (s "7")) [] none, .node (s "c") [(xsiNil, s "true")] [] none [] none] none ∧
+    ∃ evs t, generate e0 Γ6 {} w11 = .ok evs ∧ eventsTree (isDatatype Γ6) evs = .ok t ∧
+      parseRoot e0 Γ6 {} (s "Root") t = .ok (w11, 0) :=
+  ⟨by decide, by decide, rfl, bind_generate_F6 e0 Γ6 {} {} (s "Root") w11 (by decide) (by decide)⟩
 
 /-! #### inheritance: `xsi:type` -/
 
@@ -334,9 +336,8 @@ def featF7 : Feat :=
     inherit := true }
 
 /-- **C01, fragment F7** = F6 + instances of proper subclasses under element vars (`valOKI true`):
-the subclass has a qualified name that is an NCName, differs from the element name (otherwise no
-`xsi:type` is written) and is what `XmlContext.find_subclass` finds from the declared class; it has no
-`Attributes` map (the map would capture `xsi:type`). -/
+the subclass has a qualified name that is an NCName and is what `XmlContext.find_subclass` finds from
+the declared class. -/
 theorem bind_generate_F7 (e : BEnv) (Γ : Ctx) (cfg : SerCfg) (pcfg : ParserConfig) (c : ClassId) (v : Val)
     (hΓ : ctxOK featF7 Γ = true) (hv : valOKI true e Γ c v = true) :
     ∃ evs t, generate e Γ cfg v = .ok evs ∧ eventsTree (isDatatype Γ) evs = .ok t ∧
@@ -404,17 +405,15 @@ def Γw12 : Ctx :=
     datatypes := [(s xsString, some .str)] }
 def w12 : Val := .obj (s "Root") [(s "c", hObj "Sub" (.prim (.str (s "a"))) (some 1))]
 
-def t12 : Tree := .node (s "Root") [] [] none [.node (s "Sub") [] [] none
-  [.node (s "z") [] [] (some (s "a")) [] none, .node (s "extra") [] [] (some (s "1")) [] none] none] none
-
-/-- `real_xsi_type` drops the `xsi:type` because the element name equals the class name; the parser
-builds a `Base` and rejects the child `extra`: the serializer's own output does not parse -/
-theorem derived_named_as_type_witness :
-    ctxOK featF7 Γw12 = true ∧ valOKI true e0 Γw12 (s "Root") w12 = false ∧
-    generate e0 Γw12 {} w12 = .ok (evsOf Γw12 w12) ∧
-    eventsTree (isDatatype Γw12) (evsOf Γw12 w12) = .ok t12 ∧
-    parseRoot e0 Γw12 {} (s "Root") t12 = .error (.parser "Unknown property") :=
-  ⟨by decide, by decide, rfl, rfl, rfl⟩
+/-- repaired (`c01g-02`): the `xsi:type` of a subclass instance is kept although the element is named
+like the subclass (before: no `xsi:type`, the parser built a `Base` and rejected `extra`) -/
+theorem derived_named_as_type_repaired :
+    ctxOK featF7 Γw12 = true ∧ valOKI true e0 Γw12 (s "Root") w12 = true ∧
+    treeOf Γw12 w12 = .node (s "Root") [] [] none [.node (s "Sub") [(xsiType, s "Sub")] [] none
+      [.node (s "z") [] [] (some (s "a")) [] none, .node (s "extra") [] [] (some (s "1")) [] none] none] none ∧
+    ∃ evs t, generate e0 Γw12 {} w12 = .ok evs ∧ eventsTree (isDatatype Γw12) evs = .ok t ∧
+      parseRoot e0 Γw12 {} (s "Root") t = .ok (w12, 0) :=
+  ⟨by decide, by decide, rfl, bind_generate_F7 e0 Γw12 {} {} (s "Root") w12 (by decide) (by decide)⟩
 
 /-- witness 13: the subclass has an `Attributes` map: `Sub(Base)` with `m: Dict[str, str]` -/
 def w13Sub : ClassInfo :=
@@ -429,16 +428,93 @@ def Γw13 : Ctx :=
     datatypes := [(s xsString, some .str)] }
 def w13 : Val := .obj (s "Root")
   [(s "c", .obj (s "Sub") [(s "z", .prim (.str (s "a"))), (s "m", .attrs [])])]
-def t13 : Tree := .node (s "Root") [] [] none
-  [.node (s "c") [(xsiType, s "Sub")] [] none [.node (s "z") [] [] (some (s "a")) [] none] none] none
+/-- repaired (`c01g-07`): `bind_attrs` keeps `xsi:type` out of the map of the subclass -/
+theorem derived_attributes_repaired :
+    ctxOK featF7 Γw13 = true ∧ valOKI true e0 Γw13 (s "Root") w13 = true ∧
+    treeOf Γw13 w13 = .node (s "Root") [] [] none
+      [.node (s "c") [(xsiType, s "Sub")] [] none [.node (s "z") [] [] (some (s "a")) [] none] none] none ∧
+    ∃ evs t, generate e0 Γw13 {} w13 = .ok evs ∧ eventsTree (isDatatype Γw13) evs = .ok t ∧
+      parseRoot e0 Γw13 {} (s "Root") t = .ok (w13, 0) :=
+  ⟨by decide, by decide, rfl, bind_generate_F7 e0 Γw13 {} {} (s "Root") w13 (by decide) (by decide)⟩
 
-/-- the parser puts the `xsi:type` attribute into the map of the subclass -/
-theorem derived_attributes_capture_type_witness :
-    ctxOK featF7 Γw13 = true ∧ valOKI true e0 Γw13 (s "Root") w13 = false ∧
-    generate e0 Γw13 {} w13 = .ok (evsOf Γw13 w13) ∧
-    eventsTree (isDatatype Γw13) (evsOf Γw13 w13) = .ok t13 ∧
-    parseRoot e0 Γw13 {} (s "Root") t13 = .ok (.obj (s "Root")
-      [(s "c", .obj (s "Sub") [(s "z", .prim (.str (s "a"))), (s "m", .attrs [(xsiType, s "Sub")])])], 0) :=
+/-! #### a list wildcard: generic elements among the typed ones -/
+
+def featF8 : Feat :=
+  { nillable := true, tokens := true, wrapper := true, sequence := true, fixed := true, anyAttrs := true,
+    inherit := true, wildcard := true }
+
+/-- **C01, fragment F8** = F7 + one list wildcard per class without text var (`List[object]` with
+`metadata={"type": "Wildcard"}`, any `namespace` and `process_contents`), whose items are generic
+elements (`AnyElement`) in the form the parser builds (`canonAny`: a name, text `""` rather than
+`None`, no tail, attributes with distinct keys, children of the same form).  The name of an item must be
+one that `ElementNode.child` hands to the wildcard: not a declared element or wrapper of the class, in
+the namespaces of the wildcard, and (unless `process_contents="skip"`) not the qualified name of a
+class of the context. -/
+theorem bind_generate_F8 (e : BEnv) (Γ : Ctx) (cfg : SerCfg) (pcfg : ParserConfig) (c : ClassId) (v : Val)
+    (hΓ : ctxOK featF8 Γ = true) (hv : valOKI true e Γ c v = true) :
+    ∃ evs t, generate e Γ cfg v = .ok evs ∧ eventsTree (isDatatype Γ) evs = .ok t ∧
+      parseRoot e Γ pcfg c t = .ok (v, 0) :=
+  bind_generate_FN featF8 e Γ cfg pcfg c v hΓ hv
+
+def gW (nss : List String) (pc : String := "strict") : XmlVar :=
+  { mkVarN 2 "w" "w" .wildcard [.obj] (listElement := true) (default := .listFactory) with
+    namespaces := nss.map s, processContents := s pc }
+def gA : XmlVar := mkVarN 1 "a" "a" .element [.prim .str]
+def gZ : XmlVar := mkVarN 3 "z" "z" .element [.prim .int] (listElement := true) (default := .listFactory)
+/-- `Root`: `a: Optional[str]`, `w: List[object]` (wildcard for the namespaces `nss`), `z: List[int]` -/
+def gRoot (nss : List String) (pc : String := "strict") : ClassInfo := classOf "Root"
+  { mkMeta "Root" "Root" none [gA, gZ] [] with wildcards := [gW nss pc] }
+  [⟨s "a", true, some .none⟩, ⟨s "w", true, some (.list [])⟩, ⟨s "z", true, some (.list [])⟩]
+def Γ8 : Ctx :=
+  { twoClasses w5Leaf (gRoot ["##any"]) with xsiIndex := [(s "Leaf", [s "Leaf"]), (s "Root", [s "Root"])] }
+
+def anyEl (q text : String) (a : List (String × String)) (kids : List Val) : Val :=
+  .any (some (s q)) (some (s text)) none (a.map fun kv => (s kv.1, s kv.2)) kids
+
+def v8 : Val := .obj (s "Root")
+  [(s "a", .prim (.str (s "x"))),
+   (s "w", .list [anyEl "{urn:g}p" "t" [("k", "1"), ("{urn:h}l", "a b")] [],
+                 anyEl "g" "" [] [anyEl "{urn:g}h" "u" [] [], anyEl "i" "" [("m", "")] []]]),
+   (s "z", .list [.prim (.int 1), .prim (.int 2)])]
+
+example : ctxOK featF8 Γ8 = true ∧ ctxOK featF7 Γ8 = false ∧ valOKI true e0 Γ8 (s "Root") v8 = true := by
+  decide
+
+example : ∃ evs t, generate e0 Γ8 {} v8 = .ok evs ∧ eventsTree (isDatatype Γ8) evs = .ok t ∧
+    parseRoot e0 Γ8 {} (s "Root") t = .ok (v8, 0) :=
+  bind_generate_F8 e0 Γ8 {} {} (s "Root") v8 (by decide) (by decide)
+
+/-- the generic elements stand between the typed ones, in the order of the field indexes -/
+example : (match treeOf Γ8 v8 with
+    | .node _ _ _ _ kids _ => kids.map (fun k => match k with | .node q _ _ _ _ _ => q)) =
+    [s "a", s "{urn:g}p", s "g", s "z", s "z"] := by rfl
+
+/-- witness 14: a generic element named like a class of the context, `Root(w=[AnyElement(qname="Leaf")])`:
+outside the fragment, since `build_node` instantiates the class for it … -/
+def w14 : Val := .obj (s "Root") [(s "a", .none), (s "w", .list [anyEl "Leaf" "" [] []]), (s "z", .list [])]
+
+/-- … and the instance comes back with a `Leaf` object in the wildcard list -/
+theorem wildcard_item_named_as_class_witness :
+    ctxOK featF8 Γ8 = true ∧ valOKI true e0 Γ8 (s "Root") w14 = false ∧
+    generate e0 Γ8 {} w14 = .ok (evsOf Γ8 w14) ∧
+    eventsTree (isDatatype Γ8) (evsOf Γ8 w14) = .ok (treeOf Γ8 w14) ∧
+    parseRoot e0 Γ8 {} (s "Root") (treeOf Γ8 w14) = .ok (.obj (s "Root")
+      [(s "a", .none), (s "w", .list [.obj (s "Leaf") [(s "z", .none)]]), (s "z", .list [])], 0) :=
   ⟨by decide, by decide, rfl, rfl, rfl⟩
+
+/-- with `process_contents="skip"` the same value is in the fragment -/
+def Γ8s : Ctx :=
+  { twoClasses w5Leaf (gRoot ["##any"] "skip") with xsiIndex := [(s "Leaf", [s "Leaf"]), (s "Root", [s "Root"])] }
+example : ctxOK featF8 Γ8s = true ∧ valOKI true e0 Γ8s (s "Root") w14 = true := by decide
+example : ∃ evs t, generate e0 Γ8s {} w14 = .ok evs ∧ eventsTree (isDatatype Γ8s) evs = .ok t ∧
+    parseRoot e0 Γ8s {} (s "Root") t = .ok (w14, 0) :=
+  bind_generate_F8 e0 Γ8s {} {} (s "Root") w14 (by decide) (by decide)
+
+/-- a generic element with a tail, `AnyElement(qname="g", tail="x")`, is outside the fragment (the
+tail of a wildcard child is kept by `WildcardNode.bind`, so it does round-trip: `./check C01` compares
+such values on code and model; the statement about tails is C11's) -/
+def w15 : Val := .obj (s "Root")
+  [(s "a", .none), (s "w", .list [.any (some (s "g")) (some []) (some (s "x")) [] []]), (s "z", .list [])]
+example : valOKI true e0 Γ8 (s "Root") w15 = false := by decide
 
 end Props.C01
